@@ -118,8 +118,22 @@ func expectFor(f Finding) string {
 			id = id[:i]
 		}
 		return "ASSERT:" + id
-	case "non-termination", "blocks-forever", "self-deadlock":
+	case "non-termination", "blocks-forever", "self-deadlock", "deadlock":
 		return "HANG"
+	case "data-race":
+		// "<site a> <-> <site b>": the native race report must name both functions
+		var fns []string
+		for _, side := range strings.Split(f.Expr, " <-> ") {
+			fn := side
+			if i := strings.Index(fn, " ["); i >= 0 {
+				fn = fn[:i]
+			}
+			if i := strings.LastIndex(fn, "."); i >= 0 {
+				fn = fn[i+1:]
+			}
+			fns = append(fns, strings.TrimSuffix(fn, ")"))
+		}
+		return "RACE:" + strings.Join(fns, ",")
 	}
 	return "PANIC"
 }
@@ -204,13 +218,18 @@ func runReplay(casePath string) (string, string, error) {
 	}
 	sb.WriteString("} {\n\t\tb, _ := hex.DecodeString(h)\n\t\tverifTapeBytes = append(verifTapeBytes, b)\n\t}\n")
 	fmt.Fprintf(&sb, "\tverifClampCap = %v\n", rc.Clamp)
+	iters := 1
+	if rc.Kind == "data-race" || rc.Kind == "deadlock" {
+		iters = 40 // schedule dependent: repeat with real goroutines
+	}
+	fmt.Fprintf(&sb, "\tfor verifIter := 0; verifIter < %d; verifIter++ {\n\tverifTapePos, verifFailures = 0, nil\n", iters)
 	sb.WriteString("\tdone := make(chan string, 1)\n\tgo func() {\n\t\tdefer func() {\n\t\t\tif r := recover(); r != nil {\n\t\t\t\tif _, ok := r.(verifAssumption); ok {\n\t\t\t\t\tdone <- \"ASSUME\"\n\t\t\t\t\treturn\n\t\t\t\t}\n\t\t\t\tdone <- fmt.Sprintf(\"PANIC: %v ASSERT:%s\", r, strings.Join(verifFailures, \",\"))\n\t\t\t\treturn\n\t\t\t}\n\t\t\tif len(verifFailures) > 0 {\n\t\t\t\tdone <- \"ASSERT:\" + strings.Join(verifFailures, \",\")\n\t\t\t\treturn\n\t\t\t}\n\t\t\tdone <- \"OK\"\n\t\t}()\n")
 	var args []string
 	for _, a := range rc.Args {
 		args = append(args, strconv.FormatInt(a, 10))
 	}
 	fmt.Fprintf(&sb, "\t\t%s(%s)\n\t}()\n", rc.Func, strings.Join(args, ", "))
-	sb.WriteString("\tselect {\n\tcase r := <-done:\n\t\tfmt.Println(\"VERIF-REPLAY-RESULT\", r)\n\tcase <-time.After(20 * time.Second):\n\t\tfmt.Println(\"VERIF-REPLAY-RESULT HANG\")\n\t}\n}\n")
+	sb.WriteString("\tselect {\n\tcase r := <-done:\n\t\tfmt.Println(\"VERIF-REPLAY-RESULT\", r)\n\t\tif r != \"OK\" {\n\t\t\treturn\n\t\t}\n\tcase <-time.After(20 * time.Second):\n\t\tfmt.Println(\"VERIF-REPLAY-RESULT HANG\")\n\t\treturn\n\t}\n\t}\n}\n")
 	testFile := filepath.Join(dir, "replay_test.go")
 	if err := os.WriteFile(testFile, []byte(sb.String()), 0o644); err != nil {
 		return "", "", err
@@ -233,6 +252,9 @@ func runReplay(casePath string) (string, string, error) {
 		target = "."
 	}
 	cmd := exec.Command("go", "test", "-v", "-count=1", "-vet=off", "-overlay", ovFile, "-run", "^TestVerifReplay$", "-timeout", "60s", target)
+	if rc.Kind == "data-race" {
+		cmd = exec.Command("go", "test", "-race", "-v", "-count=1", "-vet=off", "-overlay", ovFile, "-run", "^TestVerifReplay$", "-timeout", "120s", target)
+	}
 	cmd.Dir = repoDir
 	cmd.Env = append(os.Environ(), "GOFLAGS=-mod=mod", "GOPROXY=off", "GOSUMDB=off", "GOTOOLCHAIN=local")
 	out, _ := cmd.CombinedOutput()
@@ -244,6 +266,31 @@ func runReplay(casePath string) (string, string, error) {
 	}
 	if res == "NORESULT" && strings.Contains(string(out), "panic:") {
 		res = "PANIC: (test binary crashed)"
+	}
+	if rc.Kind == "data-race" {
+		// one entry per race report: the functions named in it
+		var reps []string
+		for _, blk := range strings.Split(string(out), "WARNING: DATA RACE")[1:] {
+			if i := strings.Index(blk, "=================="); i >= 0 {
+				blk = blk[:i]
+			}
+			reps = append(reps, blk)
+		}
+		want := strings.Split(strings.TrimPrefix(rc.Expect, "RACE:"), ",")
+		for _, blk := range reps {
+			all := true
+			for _, fn := range want {
+				if !strings.Contains(blk, "."+fn+"(") && !strings.Contains(blk, "."+fn+".") {
+					all = false
+				}
+			}
+			if all {
+				return "RACE:" + strings.Join(want, ","), string(out), nil
+			}
+		}
+		if len(reps) > 0 {
+			res = fmt.Sprintf("OTHER-RACES(%d) %s", len(reps), res)
+		}
 	}
 	return res, string(out), nil
 }
@@ -277,6 +324,8 @@ func replayMatches(expect, got string) bool {
 		return strings.HasPrefix(got, "PANIC")
 	case expect == "HANG":
 		return got == "HANG"
+	case strings.HasPrefix(expect, "RACE:"):
+		return got == expect
 	case strings.HasPrefix(expect, "ASSERT:"):
 		id := strings.TrimPrefix(expect, "ASSERT:")
 		if i := strings.Index(got, "ASSERT:"); i >= 0 {
